@@ -11,12 +11,15 @@ from harness import common, framegen, vecgen
 
 LEVEL = {"partial": ["NumPy's take/delete/nonzero/fancy indexing behave like the Lean stand-ins: validated by the correspondence run only"]}
 ASSUMPTIONS = ["np.take / np.delete / boolean and integer indexing as documented; Python tuple equality and hashing for row tuples (None == None, 0.0 == -0.0)"]
+# objects with a history are also left grouped by an earlier group_by (harness/warm.py): none of the
+# operations of this property is documented as group-wise
+WARM_GROUPED = True
 RULE = ("frames of 0..40 rows x 1..4 columns over 11 dtype kinds from small value pools; operations filter/filter_out "
         "(mask, callable, col=value), slice/slice_off (incl. negative positions), head/tail (n in 0..nrow+2), drop_na, "
         "sample (recorded draw), unique (1..k key columns); non-trivial = >=2 rows and a result that is neither empty nor "
         "everything; thorough adds all masks x all key columns over {NA,a,b} with <=5 rows")
 
-OPS = ["filter_mask", "filter_callable", "filter_kv", "filter_out_mask", "filter_out_kv", "slice", "slice_off",
+OPS = ["filter_mask", "filter_callable", "filter_kv", "filter_out_mask", "filter_out_callable", "filter_out_kv", "slice", "slice_off",
        "head", "tail", "drop_na", "sample", "unique"]
 
 
@@ -26,7 +29,7 @@ def gen_case(rng, tier, op=None):
     op = op or rng.choice(OPS)
     case = {"op": op, "frame": spec}
     names = [c["name"] for c in spec["cols"]]
-    if op in ("filter_mask", "filter_callable", "filter_out_mask"):
+    if op in ("filter_mask", "filter_callable", "filter_out_mask", "filter_out_callable"):
         case["mask"] = [rng.random() < 0.5 for _ in range(n)]
     elif op in ("filter_kv", "filter_out_kv"):
         k = rng.choice([1, 1, 2])
@@ -98,9 +101,17 @@ def impl(case):
     try:
         if op == "filter_mask":
             out = df.filter(np.array(case["mask"], dtype=bool))
-        elif op == "filter_callable":
-            m = np.array(case["mask"], dtype=bool)
-            out = df.filter(lambda x: m)
+        elif op in ("filter_callable", "filter_out_callable"):
+            # the callable form: a condition on the frame it is handed, by position in THAT frame (not row-local:
+            # evaluated on anything but the whole receiver it selects other rows).  On objects with a history
+            # the receiver is, in addition, grouped (group_by marks it): the condition is still one mask.
+            from harness import warm
+            pos = np.flatnonzero(np.array(case["mask"], dtype=bool))
+            if warm.ENABLED and spec["cols"]:
+                df.group_by(spec["cols"][0]["name"])
+            fn = lambda x: np.isin(np.arange(x.nrow), pos)
+            out = df.filter(fn) if op == "filter_callable" else df.filter_out(fn)
+            df._group_colnames = ()
         elif op == "filter_out_mask":
             out = df.filter_out(np.array(case["mask"], dtype=bool))
         elif op in ("filter_kv", "filter_out_kv"):
@@ -155,7 +166,7 @@ def model_requests(case, obs):
     names = [c["name"] for c in spec["cols"]]
     if op in ("filter_mask", "filter_callable"):
         return [("filter", {"mask": case["mask"]})]
-    if op == "filter_out_mask":
+    if op in ("filter_out_mask", "filter_out_callable"):
         return [("filter_out", {"mask": case["mask"]})]
     if op in ("filter_kv", "filter_out_kv"):
         conds = []
@@ -189,7 +200,7 @@ def expected(case, obs):
     n = spec["n"]
     if op in ("filter_mask", "filter_callable"):
         return [i for i in range(n) if case["mask"][i]]
-    if op == "filter_out_mask":
+    if op in ("filter_out_mask", "filter_out_callable"):
         return [i for i in range(n) if not case["mask"][i]]
     if op in ("filter_kv", "filter_out_kv"):
         keep = []
